@@ -2,6 +2,7 @@
 import re
 
 import bibtexparser
+from bibtexparser.middlewares.parsestack import default_parse_stack
 from bibtexparser.model import DuplicateFieldKeyBlock, Entry, ParsingFailedBlock
 
 from .. import bibgen, harness, splitcheck, splitinputs, tokens
@@ -24,7 +25,17 @@ def text_classes(text):
 
 
 def o_text(text):
-    lib = bibtexparser.parse_string(text)
+    res = _o_text(text, bibtexparser.parse_string(text))
+    if res[0] is None and res[1]:
+        # the other way to run the default stack: copying middlewares (every block of the result is a copy)
+        r2 = _o_text(text, bibtexparser.parse_string(text, parse_stack=default_parse_stack(allow_inplace_modification=False)))
+        if r2[0] is not None:
+            return ((r2[0][0] + ":copy-mode-stack",) + tuple(r2[0][1:]), r2[1], list(r2[2]) + ["copy-mode-stack"])
+        return (None, res[1], list(res[2]) + ["copy-mode-stack"])
+    return res
+
+
+def _o_text(text, lib):
     blocks = lib.blocks
     cls = text_classes(text)
     nfail = 0
@@ -130,4 +141,4 @@ def run(chk):
         "the raw's offset; every field line within its block; for derivations each field whose key and '=' were generated "
         "on one line reports that line. Non-trivial: the input has a newline and yields >= 2 blocks or a failed block."
     )
-    chk.required_classes = ["backslash-newline", "crlf", "two-blocks-on-a-line", "derivation"]
+    chk.required_classes = ["backslash-newline", "crlf", "two-blocks-on-a-line", "derivation", "copy-mode-stack"]
